@@ -296,6 +296,53 @@ def run(ctx, rep, model=True):
             d = diff_obs(refs[name], obs)
             if d is not None:
                 rep.fail(f"{name}: result with a real pool of {n} workers differs from the in-order run at {d}", case)
+    # reader selections with the real pool from two working directories holding plotfiles of the same relative name
+    from .. import sessions
+    from amr_kitchen import PlotfileCooker
+    seed = ctx.rng.randrange(1 << 30)
+    case = {"scenario": "reader", "directories_session": seed}
+    rep.case(case, nontrivial=True); rep.count("relative-names-from-two-working-directories-real-pool")
+    dirs = sessions.two_directories(ctx, seed, "c12dirs_", ndims=3, nf=2, data="bits", B=2, layout="scatter")
+
+    def action(k, name, spec_, truth):
+        pck = PlotfileCooker(name)
+        for lv in range(len(spec_["levels"])):
+            nb = len(spec_["levels"][lv])
+            pooled = [arr_obs(a) for a in pck[:][lv][:]]
+            one_by_one = [arr_obs(pck[:][lv][b]) for b in range(nb)]
+            if pooled != one_by_one:
+                return f"level {lv} of the plotfile opened as {name!r}: the boxes read through the pool differ from the boxes read one by one"
+        return None
+    bad = sessions.visit(dirs, action)
+    if bad:
+        rep.fail("reader: " + bad, case)
+    # workers that are started afresh instead of forked
+    for name in (["combine", "whip", "colander"] if ctx.quick else [n for n in S if n in refs and not n.endswith("-serial") and not n.startswith("chef")]):
+        if name not in refs:
+            continue
+        case = {"scenario": name, "workers": "spawn"}
+        rep.case(case, nontrivial=True); rep.count("workers:spawned")
+        try:
+            obs, _ = run_scn(ctx, S[name], None, None, pool_cls=pools.SpawnPoolN(2))
+        except Exception as e:
+            rep.fail(f"{name} raised {type(e).__name__} with spawned (not forked) workers: {e}", case); continue
+        d = diff_obs(refs[name], obs)
+        if d is not None:
+            rep.fail(f"{name}: result with spawned (not forked) workers differs from the in-order run at {d}", case)
+    # two pool-mode cooks in a row with chef's own pool (whatever the first leaves behind - a closed or cached pool - the
+    # second must give the same files)
+    case = {"scenario": "chef2-pool", "workers": "pathos-twice"}
+    rep.case(case, nontrivial=True); rep.count("chef-own-pool-twice")
+    for k in range(2):
+        w = ctx.newdir("c12w_"); os.makedirs(w)
+        try:
+            with alarm(600), quiet():
+                obs = S["chef2-pool"](w)
+            d = diff_obs(refs["chef2-serial"], obs) if "chef2-serial" in refs else None
+            if d is not None:
+                rep.fail(f"chef: pool-mode cook #{k + 1} of this process (own pool) differs from the serial result at {d}", case); break
+        except Exception as e:
+            rep.fail(f"chef: pool-mode cook #{k + 1} of this process (own pool) raised {type(e).__name__}: {e}", case); break
     if not ctx.quick:
         # chef with its own pathos pool
         case = {"scenario": "chef-pool", "workers": "pathos"}
@@ -320,6 +367,18 @@ def replay(ctx, rep, obj, model=True):
     ref, _ = run_scn(ctx, S[name], None, None)
     if c.get("serial_vs_pool"):
         obs, _ = run_scn(ctx, S[SERIAL_OF[name]], None, None)
+    elif "directories_session" in c:
+        return run(ctx, rep, model)
+    elif c.get("workers") == "spawn":
+        obs, _ = run_scn(ctx, S[name], None, None, pool_cls=pools.SpawnPoolN(2))
+    elif c.get("workers") == "pathos-twice":
+        w = ctx.newdir("c12w_"); os.makedirs(w)
+        with alarm(600), quiet():
+            S[name](w)
+        w = ctx.newdir("c12w_"); os.makedirs(w)
+        with alarm(600), quiet():
+            obs = S[name](w)
+        ref, _ = run_scn(ctx, S["chef2-serial"], None, None)
     elif "workers" in c and c["workers"] != "pathos":
         obs, _ = run_scn(ctx, S[name], None, None, pool_cls=pools.RealPoolN(c["workers"]))
     else:
